@@ -135,7 +135,7 @@ Theorem C04_step_fails : forall fuel w r w1,
   st (sk w) = c_RTR_SYNC -> rtr_sync fuel w = Ok r w1 -> r <> 0 -> fsm_step fuel w = Ok tt w1.
 Proof. exact fsm_step_sync_failed. Qed.
 (* prefix lengths beyond the address size never reach the store (C14_report_prefix_length), so every record
-   handed to the tables has an address of the family's width and lengths within it; zero host bits are NOT checked *)
+   handed to the tables has an address of the family's width and lengths within it *)
 Theorem C04_stored_prefix : forall p : list byte,
   Forall byte_ok p -> pdu_ok p -> nthb p 1 = c_IPV4_PREFIX \/ nthb p 1 = c_IPV6_PREFIX -> prefix_lengths_valid p = true ->
   let '(v6, bits, len, mx, asn, _) := prec_of_pdu p in
@@ -143,6 +143,15 @@ Theorem C04_stored_prefix : forall p : list byte,
   List.length bits = W /\ (Z.to_nat len <= W)%nat /\ (Z.to_nat mx <= W)%nat /\
   (key_ok W bits (Z.to_nat len) <-> skipn (Z.to_nat len) bits = repeat false (W - Z.to_nat len)).
 Proof. exact stored_prefix_key_ok. Qed.
+(* ... and, since /repo fix "reject Prefix PDUs with bits set beyond the prefix length", no bit behind the prefix
+   length: the whole precondition of the trie theorems (C01 C02 C09: key_ok) holds for every record a cache can
+   get into the table.  Before that fix 130 prefixes differing only in such bits built a trie path deeper than the
+   address has bits, and the next insertion below it asserted / shifted by 32 (corpus/C04/30-deep-chain-v6.txt, 31-deep-chain-v4.txt). *)
+Theorem C04_stored_prefix_key_ok : forall p : list byte,
+  Forall byte_ok p -> pdu_ok p -> nthb p 1 = c_IPV4_PREFIX \/ nthb p 1 = c_IPV6_PREFIX -> prefix_lengths_valid p = true ->
+  let '(v6, bits, len, mx, asn, _) := prec_of_pdu p in
+  key_ok (if v6 then 128%nat else 32%nat) bits (Z.to_nat len).
+Proof. exact stored_prefix_is_key_ok. Qed.
 
 (* ---- (5) the size check itself, as translated from /repo's packets.c on every run (memory mode of tools/c2v.py:
         loads through pointers into the receive buffer, C integer widths, the switch with its breaks): on every
@@ -158,6 +167,7 @@ Theorem C04_check_size_reads_inside : forall p,
   rtr_pdu_check_size_gen (to_host p) (Some 0) <> None.
 Proof. exact check_size_reads_inside. Qed.
 
+Print Assumptions C04_stored_prefix_key_ok.
 Print Assumptions C04_check_size_translated.
 Print Assumptions C04_check_size_reads_inside.
 Print Assumptions C04_recv_contract.
